@@ -1,5 +1,5 @@
-// Witness TU: constexpr parser + constexpr parse (roots of the constexpr-closure rule), including a
-// lexically wrong and a syntactically wrong input and an error-recovering grammar.
+// Witness TU: constexpr parser + constexpr parse / match (roots of the constexpr-closure rule). Only accepted inputs
+// here, so that this TU compiles whenever the header does; rejected inputs are in w_cexeval.cpp.
 #include <ctpg/ctpg.hpp>
 
 using namespace ctpg;
@@ -35,17 +35,8 @@ namespace w_constexpr
 
     constexpr auto ok = p.parse(cstring_buffer("1,2; 3;"));
     static_assert(ok.has_value() && ok.value() == 6);
-    constexpr auto recovered = p.parse(cstring_buffer("1,,2; 3;"));
-    static_assert(recovered.has_value() && recovered.value() == 3);
-    constexpr auto lex_error = p.parse(cstring_buffer("1,2; ?"));
-    static_assert(!lex_error.has_value());
-    constexpr auto syn_error = p.parse(cstring_buffer("1,2"));
-    static_assert(!syn_error.has_value());
-
     constexpr char pattern[] = "a(b|c)*";
     constexpr regex::expr<pattern> r;
     constexpr bool m1 = r.match("abcb");
-    constexpr bool m2 = r.match("xb");
-    constexpr bool m3 = r.match("abx");
-    static_assert(m1 && !m2 && !m3);
+    static_assert(m1);
 }
